@@ -481,7 +481,17 @@ func runC04(b *runner.Batch) {
 	if b.Thorough() {
 		nops = 250
 	}
+	var jumped uint64
 	for i := 0; i < nops && b.NViolations() == 0; i++ {
+		// time passes (hours, weeks, years — less than the ten years names are registered for): nothing may change
+		if b.Rng.IntN(15) == 0 {
+			d := runner.Pick(b.Rng, []uint64{2 * 3600, 40 * 24 * 3600, 3 * 365 * 24 * 3600}) * 1000
+			if jumped+d < 9*365*24*3600*1000 {
+				jumped += d
+				e.w.Now += d
+				b.Hit("clock-jump-below-ten-years")
+			}
+		}
 		switch k := b.Rng.IntN(20); {
 		case k < 9:
 			e.doPut(e.genPut(4), "C04")
